@@ -11,11 +11,7 @@ theorem afterInput_inactive {t : St} (cfg args k0 o) (h : t.active = none) : aft
   unfold afterInput
   split
   · exact write_inactive _ _ h
-  · split
-    · exact write_inactive _ _ h
-    · split
-      · exact write_inactive _ _ h
-      · exact doDiscard_inactive h
+  · exact doDiscard_inactive h
 theorem afterOutput_inactive {t : St} (a n o) (h : t.active = none) : afterOutput a n t o = t := by
   unfold afterOutput; split <;> exact write_inactive _ _ h
 
